@@ -116,6 +116,9 @@ fn stallers(ctx: &mut Ctx) {
     let extra_offs: Vec<usize> = (1..nstall).map(|_| ctx.plan(hb.len() as u64 + if kind == Kind::Req || crowd { 0 } else { 1 }) as usize).collect();
     let extra_modes: Vec<Mode> = (1..nstall).map(|_| if crowd { Mode::Stop } else { MODES[ctx.plan(3) as usize] }).collect();
     let abort_in_backlog = ctx.plan_bool();
+    // one disturbed case in four: the application asked for a monitor once and has dropped the
+    // receiving end since (nothing reads the events; nothing is judged from them either)
+    let monitor_dropped = ctx.idx >= 54 * (hb.len() as u64 + 1) && ctx.plan(4) == 0;
     let accept_error = ctx.idx >= 54 * (hb.len() as u64 + 1) && ctx.plan(4) == 0;
     // one disturbed case in 64: 1030..1200 sequential well-behaved clients behind the stallers
     let long_history = ctx.idx >= 54 * (hb.len() as u64 + 1) && !crowd && !matches!(kind, Kind::Req | Kind::Push | Kind::Dealer) && ctx.plan(64) == 1; // (round-robin senders learn of a departure only when a write fails: a thousand departed clients would sit in their rotation and defeat the bounded probe below)
@@ -127,6 +130,11 @@ fn stallers(ctx: &mut Ctx) {
     rt::task::spawn_local("app", async move {
         let mut sock = AnySock::new(kind, None);
         let mut mon = sock.monitor();
+        if monitor_dropped {
+            drop(mon);
+            mon = futures::channel::mpsc::channel(1).1;
+            rt::count("probe_monitor_receiver_dropped_before_the_stallers");
+        }
         let bind_to = if ipc { format!("ipc:///tmp/zsim-c20-{idx}.sock") } else { "tcp://127.0.0.1:0".to_string() };
         let ep = sock.bind(&bind_to).await.expect("bind").to_string();
         let peer_type = kind.peers()[0];
@@ -349,12 +357,12 @@ fn stallers(ctx: &mut Ctx) {
         if !o.established_ok {
             ctx.violation("established_traffic_interrupted", format!("{tag}: the peer established before the stallers no longer exchanges messages"));
         }
-        if o.accept_failed < o.expected_failures || o.accept_failed > o.expected_failures + o.possible_failures {
+        if !monitor_dropped && (o.accept_failed < o.expected_failures || o.accept_failed > o.expected_failures + o.possible_failures) {
             ctx.violation("accept_failures_misreported", format!("{tag}: {} handshakes were closed before completion and {} were fed garbage, but the monitor got {} AcceptFailed events", o.expected_failures, o.possible_failures, o.accept_failed));
         }
         // the peer set: exactly the connections that completed a handshake were announced as peers
         let admits = o.sure_admits + o.good_total;
-        if o.accepted < admits || o.accepted > admits + o.possible_admits {
+        if !monitor_dropped && (o.accepted < admits || o.accepted > admits + o.possible_admits) {
             ctx.violation("peer_set_changed_by_failed_handshake", format!("{tag}: {} connections completed their handshake ({} more may have), but the monitor announced {} accepted peers", admits, o.possible_admits, o.accepted));
         }
         ctx.nontrivial();
